@@ -27,6 +27,7 @@ structure NoClash (id : Id) (s : State) : Prop where
   /-- the id is not an encoded link count (5 bytes starting with the int32 type byte) -/
   counts : ∀ n, ¬ Clash id (encCount n)
   code : ∀ j e c, s.a.lookup j = some e → e.code = some c → ¬ Clash id c
+  colour : ∀ j e c, s.a.lookup j = some e → e.colour = some c → ¬ Clash id c
   label : ∀ j e l, s.b.lookup j = some e → e.label = some l → ¬ Clash id l
 
 /-- a byte string that is neither the id nor its typed form -/
@@ -134,6 +135,8 @@ theorem no_trace_of_absent {s : State} {id : Id} (hi : Inv s) (hc : NoClash id s
   have sG : Safe id bGroups := safe_reserved hc (by simp [reserved])
   have sE : Safe id bExt1 := safe_reserved hc (by simp [reserved])
   have sC : Safe id bCode := safe_reserved hc (by simp [reserved])
+  have sE2 : Safe id bExt2 := safe_reserved hc (by simp [reserved])
+  have sCo : Safe id bColour := safe_reserved hc (by simp [reserved])
   have sL : Safe id bLabel := safe_reserved hc (by simp [reserved])
   have sM : Safe id bMembers := safe_reserved hc (by simp [reserved])
   have sD : Safe id bDep := safe_reserved hc (by simp [reserved])
@@ -169,11 +172,11 @@ theorem no_trace_of_absent {s : State} {id : Id} (hi : Inv s) (hc : NoClash id s
     · obtain ⟨ea, ha⟩ := aOf v (h hz); exact aId v ea ha
   intro l hl
   simp only [Render, List.mem_append, List.mem_flatMap, Prod.exists, Map.mem_entries_iff] at hl
-  rcases hl with ((((((((hl | hl) | hl) | ⟨j, e, hj, hl⟩) | ⟨j, e, hj, hl⟩) | ⟨v, i, hv, hl⟩) | ⟨v, i, hv, hl⟩) |
-    ⟨v, i, hv, hl⟩) | ⟨v, i, hv, hl⟩) | ⟨v, ids, hv, hl⟩
+  rcases hl with (((((((((hl | hl) | hl) | ⟨j, e, hj, hl⟩) | ⟨j, e, hj, hl⟩) | ⟨v, i, hv, hl⟩) | ⟨v, i, hv, hl⟩) |
+    ⟨v, i, hv, hl⟩) | ⟨v, i, hv, hl⟩) | ⟨v, i, hv, hl⟩) | ⟨v, ids, hv, hl⟩
   · -- fixed buckets
     simp only [fixedLines, idxPathA, idxPathB, List.mem_cons, List.mem_nil_iff, or_false] at hl
-    rcases hl with rfl | rfl | rfl | rfl | rfl | rfl | rfl | rfl | rfl <;>
+    rcases hl with rfl | rfl | rfl | rfl | rfl | rfl | rfl | rfl | rfl | rfl <;>
       (apply not_mentions_bucket; intro x hx; simp only [List.mem_cons, List.mem_nil_iff, or_false] at hx;
        rcases hx with rfl | rfl | rfl | rfl <;> assumption)
   · split at hl
@@ -203,7 +206,7 @@ theorem no_trace_of_absent {s : State} {id : Id} (hi : Inv s) (hc : NoClash id s
       · exact hn
       · exact hm
     simp only [renderA, List.mem_append, List.mem_cons, List.mem_nil_iff, or_false, mem_optBucket] at hl
-    rcases hl with ((((rfl | rfl | rfl | rfl | rfl | rfl) | hl) | ⟨gs, hg, hl⟩) | ⟨c, hrc, hl⟩) | hl
+    rcases hl with (((((rfl | rfl | rfl | rfl | rfl | rfl) | hl) | ⟨gs, hg, hl⟩) | ⟨c, hrc, hl⟩) | hl) | hl
     · exact not_mentions_bucket hp
     · exact not_mentions_kv hp sN (safe_typed (hc.name j e hj))
     · exact not_mentions_kv hp sA (safe_optField hc.nil (fun a ha => hc.alias j e a hj ha))
@@ -230,6 +233,13 @@ theorem no_trace_of_absent {s : State} {id : Id} (hi : Inv s) (hc : NoClash id s
           intro g hgm
           obtain ⟨eb, hb⟩ := bOf g (hi.p.fwd_target hps hgm)
           exact bId g eb hb
+    · cases hcd : e.colour with
+      | none => simp [hcd] at hl
+      | some c =>
+        simp only [hcd, List.mem_cons, List.mem_nil_iff, or_false] at hl
+        rcases hl with rfl | rfl
+        · exact not_mentions_bucket (hp2 _ sE2)
+        · exact not_mentions_kv (hp2 _ sE2) sCo (safe_typed (hc.colour j e c hj hcd))
   · -- a B entity
     have sj : Safe id j := safe_of_not_clash (bId j e hj)
     have hp : ∀ x, x ∈ pathB j → Safe id x := by
@@ -285,6 +295,15 @@ theorem no_trace_of_absent {s : State} {id : Id} (hi : Inv s) (hc : NoClash id s
     intro x hx; simp only [idxPathA, List.mem_cons, List.mem_nil_iff, or_false] at hx
     rcases hx with rfl | rfl | rfl | rfl <;> assumption
   · simp only [renderUnique, List.mem_singleton] at hl; subst hl
+    obtain ⟨hne, e, he, hv'⟩ := (hi.uColour v i).1 hv
+    have hcl : ¬ Clash id v := by
+      cases ha : e.colour with
+      | none => simp [ha] at hv'; exact absurd hv' hne
+      | some a => simp [ha] at hv'; subst hv'; exact hc.colour i e a he ha
+    refine not_mentions_kv ?_ (safe_of_not_clash hcl) (safe_of_not_clash (aId i e he))
+    intro x hx; simp only [idxPathA, List.mem_cons, List.mem_nil_iff, or_false] at hx
+    rcases hx with rfl | rfl | rfl | rfl <;> assumption
+  · simp only [renderUnique, List.mem_singleton] at hl; subst hl
     obtain ⟨hne, e, he, hv'⟩ := (hi.uLabel v i).1 hv
     have hcl : ¬ Clash id v := by
       cases ha : e.label with
@@ -322,7 +341,8 @@ def noClashCheck (id : Id) (s : State) : Bool :=
     (decide (p.1 = id) || decide (¬ Clash id p.1)) && decide (¬ Clash id p.2.name) &&
     (match p.2.alias with | some a => decide (¬ Clash id a) | none => true) &&
     p.2.roles.all (fun r => decide (¬ Clash id r)) &&
-    (match p.2.code with | some c => decide (¬ Clash id c) | none => true)) &&
+    (match p.2.code with | some c => decide (¬ Clash id c) | none => true) &&
+    (match p.2.colour with | some c => decide (¬ Clash id c) | none => true)) &&
   s.b.entries.all (fun p =>
     (decide (p.1 = id) || decide (¬ Clash id p.1)) &&
     (match p.2.label with | some l => decide (¬ Clash id l) | none => true))
@@ -337,18 +357,19 @@ theorem noClash_of_check {id : Id} {s : State} (h : noClashCheck id s = true) : 
   simp only [noClashCheck, Bool.and_eq_true, decide_eq_true_eq, List.all_eq_true, Bool.or_eq_true, Prod.forall,
     Map.mem_entries_iff] at h
   obtain ⟨⟨⟨⟨⟨⟨h1, h0⟩, h2⟩, h3⟩, h6⟩, h4⟩, h5⟩ := h
-  refine ⟨h1, h2, h3, ?_, ?_, ?_, ?_, ?_, h6, counts_no_clash h0, ?_, ?_⟩
+  refine ⟨h1, h2, h3, ?_, ?_, ?_, ?_, ?_, h6, counts_no_clash h0, ?_, ?_, ?_⟩
   · intro j e hj hne
-    rcases (h4 j e hj).1.1.1.1 with h | h
+    rcases (h4 j e hj).1.1.1.1.1 with h | h
     · exact absurd h hne
     · exact h
   · intro j e hj hne
     rcases (h5 j e hj).1 with h | h
     · exact absurd h hne
     · exact h
-  · intro j e hj; exact (h4 j e hj).1.1.1.2
-  · intro j e a hj ha; have := (h4 j e hj).1.1.2; simpa [ha] using this
-  · intro j e r hj hr; exact (h4 j e hj).1.2 r hr
+  · intro j e hj; exact (h4 j e hj).1.1.1.1.2
+  · intro j e a hj ha; have := (h4 j e hj).1.1.1.2; simpa [ha] using this
+  · intro j e r hj hr; exact (h4 j e hj).1.1.2 r hr
+  · intro j e c hj hc; have := (h4 j e hj).1.2; simpa [hc] using this
   · intro j e c hj hc; have := (h4 j e hj).2; simpa [hc] using this
   · intro j e l hj hl; have := (h5 j e hj).2; simpa [hl] using this
 
